@@ -111,6 +111,9 @@ def run(ctx):
         one(ca.spread_case(rng), "weight-spread")
     for i in range(6000 if thorough else 400):
         one(ca.decimal_case(rng, absent=(i % 2 == 0)), "decimal-weights")
+    for i in range(3000 if thorough else 260):
+        rc_ = ca.relations_case(rng)
+        ca.run_relations(S, rc_, pick_fmt(rng, rc_))
     for i in range(2500 if thorough else 200):
         one(ca.int_weights_case(rng), "int-weights")
     for i in range(2000 if thorough else 160):
